@@ -22,8 +22,10 @@ class C04(EvalCheck):
             nd = rng.choice([1, 1, 1, 2, 3])
             style = rng.choice(["uniform", "irregular", "repeated", "repeated", "wild", "integer"])
             sr = rng.choice([(-2, 2), (-2, 2), (-300, -290), (290, 300), (-20, 20)])
+            # long knot vectors too (the bisection then makes many steps): one-dimensional tables only, to keep the array small
+            extra = rng.choice([0, 1, 3, 9, 40] + ([300, 2500] if nd == 1 else []))
             t = gen_table(rng, ndim=nd, max_coefs=3000, pattern=rng.choice(["const", "mixed"]), knot_style=style,
-                          coef_style="rand", scale_range=sr, maxextra=rng.choice([0, 1, 3, 9, 40]))
+                          coef_style="rand", scale_range=sr, maxextra=extra)
             qs = []
             for qi in range(50):
                 classes = IN_CLASSES + (OUT_CLASSES + ["denorm", "zero", "-zero"] if qi % 2 else [])
